@@ -65,11 +65,13 @@ PROFILES = {
     'C01': dict(pool=SYNC_OPS, modes=['loopless', 'loopless', 'async'], md=0.3, sinks=['sync']),
     'C10': dict(pool=SYNC_OPS + ASYNC_LOSSLESS + LOSSY, modes=['loopless', 'async', 'async'], md=0.85,
                 sinks=['sync', 'native', 'tornado', 'future']),
-    'C02': dict(pool=ASYNC_LOSSLESS + ['map', 'filter', 'zip', 'union', 'accumulate', 'sliding_window', 'partition', 'flatten'],
+    'C02': dict(pool=ASYNC_LOSSLESS + ['map', 'filter', 'zip', 'union', 'accumulate', 'sliding_window', 'partition', 'flatten',
+                                        'zip_latest', 'combine_latest', 'collect', 'pluck', 'starmap', 'slice', 'unique'],
                 need=ASYNC_LOSSLESS + ['zip', 'union'], modes=['async'], md=0.3,
                 sinks=['sync', 'native', 'tornado', 'future']),
     'C03': dict(pool=['buffer', 'map_async', 'zip', 'rate_limit', 'map', 'filter', 'partition', 'sliding_window',
-                      'timed_window', 'union', 'accumulate', 'delay', 'partition_t', 'flatten', 'slice'],
+                      'timed_window', 'union', 'accumulate', 'delay', 'partition_t', 'flatten', 'slice',
+                      'zip_latest', 'combine_latest', 'collect', 'pluck'],
                 need=['buffer', 'map_async', 'zip'], modes=['async'], md=0.2, await_all=True,
                 sinks=['native', 'tornado', 'future', 'sync']),
     'C04': dict(pool=SYNC_OPS + ASYNC_LOSSLESS + LOSSY, need=ASYNC_LOSSLESS + LOSSY + ['sink_async'],
